@@ -288,6 +288,11 @@ impl Report {
         if std::env::var("VERIF_NOFLOOR").is_ok() {
             return;
         }
+        // secondary lanes run a fraction of the primary lane's workload
+        let need = match CURRENT_LANE.get().map(|s| s.as_str()) {
+            Some("rel") | Some("op") | None => need,
+            _ => (need / 8).max(1),
+        };
         if have < need {
             self.inconclusive(format!("coverage floor not reached: {what}: {have} < {need}"));
         }
@@ -347,6 +352,9 @@ impl Report {
 thread_local! {
     static LAST_PANIC: std::cell::RefCell<Option<(String, String)>> = const { std::cell::RefCell::new(None) };
 }
+
+/// lane of this process (set once by main)
+pub static CURRENT_LANE: std::sync::OnceLock<String> = std::sync::OnceLock::new();
 
 pub fn install_panic_hook() {
     std::panic::set_hook(Box::new(|info| {
